@@ -20,10 +20,12 @@ import (
 	"strconv"
 	"strings"
 	"sync"
+	"sync/atomic"
 	"testing"
 	"time"
 
 	"github.com/ipfs/go-cid"
+	logging "github.com/ipfs/go-log/v2"
 	"github.com/libp2p/go-libp2p/core/connmgr"
 	"github.com/libp2p/go-libp2p/core/event"
 	"github.com/libp2p/go-libp2p/core/host"
@@ -36,6 +38,7 @@ import (
 	ma "github.com/multiformats/go-multiaddr"
 	manet "github.com/multiformats/go-multiaddr/net"
 	mh "github.com/multiformats/go-multihash"
+	"go.uber.org/zap/zapcore"
 
 	kaddht "github.com/libp2p/go-libp2p-kad-dht"
 	"github.com/libp2p/go-libp2p-kad-dht/amino"
@@ -1492,6 +1495,140 @@ func c16CaseBulkSingle(e *c16Env, i int, r *vfRand, bulk bool) {
 	e.add(i, "single", term, map[string]any{"n": n, "K": K, "limit": limit, "provide": provide, "obs": o}, sig)
 }
 
+// ---- a bulk operation with a crawl swapped in at one of its log statements --------------
+//
+// bulkMessageSend makes no call the harness could park between its reads of the table, but it
+// logs: the harness installs a logging core whose Write runs on the logging goroutine, and uses
+// the n-th entry written by the goroutine of the bulk operation as a yield point.  There the
+// second crawl (often one that found nobody) is released, the real runCrawler swaps its table
+// in, and the operation goes on.
+
+type c16HookCore struct{ zapcore.LevelEnabler }
+
+var c16LogHook atomic.Pointer[func(msg string)]
+
+func (c *c16HookCore) With([]zapcore.Field) zapcore.Core { return c }
+func (c *c16HookCore) Check(e zapcore.Entry, ce *zapcore.CheckedEntry) *zapcore.CheckedEntry {
+	if c.Enabled(e.Level) {
+		return ce.AddCore(e, c)
+	}
+	return ce
+}
+func (c *c16HookCore) Write(e zapcore.Entry, _ []zapcore.Field) error {
+	if f := c16LogHook.Load(); f != nil {
+		(*f)(e.Message)
+	}
+	return nil
+}
+func (c *c16HookCore) Sync() error { return nil }
+
+var c16HookOnce sync.Once
+
+func c16CaseBulkSwap(e *c16Env, i int, r *vfRand) bool {
+	c16HookOnce.Do(func() {
+		logging.SetPrimaryCore(&c16HookCore{LevelEnabler: zapcore.DebugLevel})
+		_ = logging.SetLogLevel("fullrtdht", "debug")
+	})
+	gs := &c16Groups{num: map[peerdiversity.PeerIPGroupKey]int{}}
+	n := 1 + r.Intn(12)
+	ps := c16Universe(r, fmt.Sprintf("w%d", i), n, 1+r.Intn(4), gs, true)
+	h := c16NewHost()
+	defer h.Close()
+	var old, nw []c16Peer
+	for _, p := range ps {
+		h.ps.setAddrs(p.id, p.addrs)
+		h.nw.conns[p.id] = true
+		old = append(old, p)
+	}
+	if !r.Chance(65) { // mostly: the second crawl finds nobody
+		for _, p := range ps {
+			if r.Chance(40) {
+				nw = append(nw, p)
+			}
+		}
+	}
+	ids := func(l []c16Peer) []peer.ID {
+		o := make([]peer.ID, len(l))
+		for j, p := range l {
+			o[j] = p.id
+		}
+		return o
+	}
+	K, limit := c16Ks[1+r.Intn(3)], c16Limits[r.Intn(3)]
+	sc := &c16ScriptCrawler{crawls: [][]peer.ID{ids(old), ids(nw)}, runs: make(chan struct{}, 1)}
+	d, err := c16NewFRT(h, "/verif", sc, &c16Sender{}, K, []Option{WithSuccessWaitFraction(1), WithIPDiversityFilterLimit(limit)}, nil)
+	if err != nil {
+		e.t.Fatal(err)
+	}
+	defer d.Close()
+	select {
+	case <-sc.runs:
+	case <-time.After(c16StageWait):
+		return false
+	}
+	stamp, ok := c16WaitSwap(d, time.Time{})
+	if !ok || len(d.Stat()) == 0 {
+		return false // nothing to start the operation on: the caller generates another case
+	}
+	yieldAt := 1
+	if r.Bool() {
+		yieldAt = 2 + r.Intn(3)
+	}
+	provide := r.Bool()
+	nk := 1 + r.Intn(6)
+	var kads []uint64
+	var opGoid atomic.Int64
+	seen, swapped := 0, false
+	hook := func(msg string) {
+		if c16Goid() != opGoid.Load() || !strings.HasPrefix(msg, "bulk send") {
+			return
+		}
+		seen++
+		if seen != yieldAt {
+			return
+		}
+		ctx, cancel := context.WithTimeout(context.Background(), c16StageWait)
+		err := d.TriggerRefresh(ctx)
+		cancel()
+		if err != nil {
+			return
+		}
+		select {
+		case <-sc.runs:
+		case <-time.After(c16StageWait):
+			return
+		}
+		_, swapped = c16WaitSwap(d, stamp)
+	}
+	c16LogHook.Store(&hook)
+	defer c16LogHook.Store(nil)
+	ctx, cancel := context.WithTimeout(context.Background(), 20*time.Second)
+	defer cancel()
+	var o c16OpObs
+	if provide {
+		keys := make([]mh.Multihash, nk)
+		for j := range keys {
+			keys[j], _ = mh.Sum([]byte(fmt.Sprintf("bulkswap-%d-%d", i, j)), mh.SHA2_256, -1)
+			kads = append(kads, c16KeyKad(string(keys[j])))
+		}
+		o = c16RunOp(d, func() error { opGoid.Store(c16Goid()); return d.ProvideMany(ctx, keys) })
+	} else {
+		keys := make([]string, nk)
+		vals := make([][]byte, nk)
+		for j := range keys {
+			keys[j] = fmt.Sprintf("/v/bulkswap-%d-%d", i, j)
+			vals[j] = []byte("x")
+			kads = append(kads, c16KeyKad(keys[j]))
+		}
+		o = c16RunOp(d, func() error { opGoid.Store(c16Goid()); return d.PutMany(ctx, keys, vals) })
+	}
+	term := fmt.Sprintf("CBulkSwap %s %s %d %d %s %s", c16Crawl(old), c16Crawl(nw), K, limit, c16NL(kads), o.coq())
+	sig := fmt.Sprintf("bulkswap|provide=%v|new=%s|keys=%d|yield=%d|swapped=%v|%s", provide, c16SizeClass(len(nw)), nk, yieldAt, swapped, o.Kind)
+	e.add(i, "bulk-swap", term, map[string]any{"old": len(old), "new": len(nw), "K": K, "limit": limit, "keys": nk, "provide": provide,
+		"yield_at_log_line": yieldAt, "swapped_during_yield": swapped, "obs": o}, sig)
+	return true
+}
+
 func c16CaseChunk(e *c16Env, i int, r *vfRand) {
 	n := r.Intn(14)
 	chunk := r.Intn(n+4) - 1
@@ -1574,6 +1711,15 @@ func TestVerifC16(t *testing.T) {
 		case x < 38:
 			c16CaseBulkSingle(env, i, r, false)
 		case x < 39:
+			{
+				done := false
+				for try := 0; try < 5 && !done; try++ {
+					done = c16CaseBulkSwap(env, i, r)
+				}
+				if done {
+					break
+				}
+			}
 			c16CaseBulkSingle(env, i, r, r.Bool())
 		default:
 			c16CaseChunk(env, i, r)
